@@ -196,22 +196,44 @@ def sys_records(cases, segs, selected):
     return recs, odd
 
 
-def judge(chk, sd, recs, name, timeout=2400):
-    pth = os.path.join(sd, "io-%s.ndjson" % re.sub(r"\W+", "_", name or "x"))
+def _judge1(sd, recs, tag, timeout):
+    pth = os.path.join(sd, "io-%s.ndjson" % tag)
     vf.write_ndjson(pth, recs)
     r = vf.tlc(SPEC, "SandboxPath_Trace", "SandboxPath_Trace.cfg", sd, workers=1, files={"io.ndjson": pth}, timeout=timeout, keep_stdout=False)
     if r.error or r.violated or r.rc != 0:
-        raise vf.NoVerdict("%s: contract evaluation failed: %s %s\n%s" % (name, r.violated, r.error, r.stdout[-2500:]))
+        raise vf.NoVerdict("contract evaluation failed (%s): %s %s\n%s" % (tag, r.violated, r.error, r.stdout[-2500:]))
     rep = [x for x in r.records if isinstance(x, dict) and "bad" in x and "n" in x]
     if not rep:
-        raise vf.NoVerdict("%s: contract spec printed no report\n%s" % (name, r.stdout[-1500:]))
+        raise vf.NoVerdict("contract spec printed no report (%s)\n%s" % (tag, r.stdout[-1500:]))
     rep = rep[-1]
     for k in ("bad", "calbad", "classes"):
         if not isinstance(rep[k], list):
             rep[k] = []
-    if name:
-        chk.add_tlc(r, name, count_states=False)
-    return rep
+    return r, rep
+
+
+def judge(chk, sd, recs, name, timeout=2400, chunk=300):
+    """SandboxPath_Trace over the records, in chunks judged by parallel TLC processes; the reports are merged
+    (record indices become global, counts per key are summed)."""
+    tag = re.sub(r"\W+", "_", name or "selftest")[:24]
+    parts = [(k, recs[k:k + chunk]) for k in range(0, len(recs), chunk)] or [(0, [])]
+    with ThreadPoolExecutor(max_workers=min(6, len(parts))) as ex:
+        res = list(ex.map(lambda a: (a[0],) + _judge1(sd, a[1], "%s-%d" % (tag, a[0]), timeout), parts))
+    tot = {"n": 0, "bad": {}, "calbad": [], "classes": set(), "cnt": {}}
+    for off, r, rep in res:
+        tot["n"] += rep["n"]
+        for b in rep["bad"]:
+            t = tot["bad"].setdefault(b["key"], {"key": b["key"], "idx": b["idx"] + off, "count": 0})
+            t["count"] += b["count"]
+        tot["calbad"] += [dict(b, idx=b["idx"] + off) for b in rep["calbad"]]
+        tot["classes"].update(rep["classes"])
+        for k, v in rep["cnt"].items():
+            tot["cnt"][k] = tot["cnt"].get(k, 0) + v
+        if name:
+            chk.add_tlc(r, "%s [records %d..]" % (name, off + 1), count_states=False)
+    tot["bad"] = sorted(tot["bad"].values(), key=lambda b: b["key"])
+    tot["classes"] = sorted(tot["classes"])
+    return tot
 
 
 def sp_text(sp):
